@@ -87,9 +87,22 @@ def local_names(fn):
     return names
 
 
+def module_names(tree):
+    out = set()
+    for st in tree.body:
+        if isinstance(st, (ast.Assign, ast.AugAssign, ast.AnnAssign)):
+            for x in ast.walk(st):
+                if isinstance(x, ast.Name) and isinstance(x.ctx, ast.Store):
+                    out.add(x.id)
+    return out
+
+
 def collect(tree):
-    """{qualname: sorted local names} of one module (for the table)."""
-    return {q: sorted(local_names(fn)) for q, fn, _ in qualnames(tree)}
+    """{qualname: sorted local names} of one module (for the table);
+    '<module>' holds the names assigned at module level."""
+    out = {q: sorted(local_names(fn)) for q, fn, _ in qualnames(tree)}
+    out['<module>'] = sorted(module_names(tree))
+    return out
 
 
 # --------------------------------------------------------------------------
@@ -709,11 +722,98 @@ def specialise_new_params(tree, ref):
     return tree
 
 
+def fold_new_module_constants(tree, ref):
+    """A module-level name that the reference module does not have, bound
+    once to a constant (a switch such as `_DEBUG = False`), is replaced by
+    the constant inside the functions, and tests on it are folded."""
+    if ref is None or '<module>' not in ref:
+        return tree
+    consts, count = {}, {}
+    for st in tree.body:
+        if isinstance(st, ast.Assign) and len(st.targets) == 1 and \
+                isinstance(st.targets[0], ast.Name):
+            nm = st.targets[0].id
+            count[nm] = count.get(nm, 0) + 1
+            if isinstance(st.value, ast.Constant):
+                consts[nm] = st.value
+    new = {k: v for k, v in consts.items()
+           if k not in ref['<module>'] and count[k] == 1}
+    for n in ast.walk(tree):
+        if isinstance(n, ast.Global):
+            for nm in n.names:
+                new.pop(nm, None)
+    if not new:
+        return tree
+    for q, fn, cls in qualnames(tree):
+        loc = local_names(fn)
+        m = {k: v for k, v in new.items() if k not in loc}
+        if not m or not any(isinstance(x, ast.Name) and x.id in m
+                            for x in ast.walk(fn)):
+            continue
+        fn.body = [_Subst(m).visit(st) for st in fn.body]
+        out = []
+        for st in fn.body:
+            r = _Fold().visit(st)
+            out.extend(r if isinstance(r, list) else [r])
+        fn.body = out
+    ast.fix_missing_locations(tree)
+    return tree
+
+
+def merge_list_appends(tree, ref):
+    """`t = [a, b]` directly followed by `t.append(c)` statements, t a new
+    local: the literal is completed and the appends are dropped."""
+    if ref is None:
+        return tree
+
+    def do(stmts, new):
+        i = 0
+        while i < len(stmts):
+            st = stmts[i]
+            for fld in ('body', 'orelse', 'finalbody'):
+                v = getattr(st, fld, None)
+                if isinstance(v, list) and v and isinstance(v[0], ast.stmt) \
+                        and not isinstance(st, (ast.FunctionDef,
+                                                ast.ClassDef)):
+                    do(v, new)
+            if isinstance(st, ast.Assign) and len(st.targets) == 1 and \
+                    isinstance(st.targets[0], ast.Name) and \
+                    st.targets[0].id in new and isinstance(st.value,
+                                                           ast.List):
+                t = st.targets[0].id
+                while i + 1 < len(stmts):
+                    nx = stmts[i + 1]
+                    if isinstance(nx, ast.Expr) and isinstance(
+                            nx.value, ast.Call) and isinstance(
+                                nx.value.func, ast.Attribute) and \
+                            nx.value.func.attr == 'append' and isinstance(
+                                nx.value.func.value, ast.Name) and \
+                            nx.value.func.value.id == t and len(
+                                nx.value.args) == 1 and not any(
+                                    isinstance(x, ast.Name) and x.id == t
+                                    for x in ast.walk(nx.value.args[0])):
+                        st.value.elts.append(nx.value.args[0])
+                        del stmts[i + 1]
+                    else:
+                        break
+            i += 1
+    for q, fn, cls in qualnames(tree):
+        base = ref.get(q) or ref.get(q.split('#')[0])
+        if base is None:
+            continue
+        new = local_names(fn) - set(base)
+        if new:
+            do(fn.body, new)
+    return tree
+
+
 def normalise(tree, rel):
     ref = known().get(rel)
     if ref is None:
         return tree
+    fold_new_module_constants(tree, ref)
     specialise_new_params(tree, ref)
     inline_new_helpers(tree, ref)
+    merge_list_appends(tree, ref)
     propagate_new_temps(tree, ref)
     return tree
